@@ -75,6 +75,7 @@ struct Snap {
 	std::vector<EvRec> log;
 	std::map<unsigned, std::vector<int>> links;		// key -> page numbers of the six navigation links (FLOF, initial page) at Level 2.5
 	std::map<unsigned, std::vector<unsigned>> hdr;		// key -> the 40 characters of the header row at Level 1.5
+	std::map<unsigned, std::vector<unsigned>> grid;		// key -> 25 x 40 characters at Level 1.5
 };
 
 static void ser_page(std::string &o, const vbi_page &pg) {
@@ -98,7 +99,7 @@ static void ser_page(std::string &o, const vbi_page &pg) {
 static void run_tx(const std::vector<Pkt> &tx, const std::vector<char> *drop, int fault_at, const uint8_t *fault_bytes, Snap &out,
 		   const std::vector<std::pair<int, const uint8_t *>> *multi = nullptr) {
 	vbi_decoder *dec = vbi_decoder_new();
-	out.pages.clear(); out.log.clear(); out.links.clear(); out.hdr.clear();
+	out.pages.clear(); out.log.clear(); out.links.clear(); out.hdr.clear(); out.grid.clear();
 	g_log = &out.log;
 	vbi_event_handler_register(dec, VBI_EVENT_TTX_PAGE | VBI_EVENT_NETWORK | VBI_EVENT_NETWORK_ID | VBI_EVENT_LOCAL_TIME | VBI_EVENT_PROG_ID, on_event, nullptr);
 	double t = 1000.0;
@@ -121,7 +122,7 @@ static void run_tx(const std::vector<Pkt> &tx, const std::vector<char> *drop, in
 		std::string o;
 		for (int level : {VBI_WST_LEVEL_1p5, VBI_WST_LEVEL_2p5}) {
 			vbi_page pg; memset(&pg, 0, sizeof pg);
-			if (vbi_fetch_vt_page(dec, &pg, pgno[i], subno[i], (vbi_wst_level) level, 25, TRUE)) { ser_page(o, pg); if (level == VBI_WST_LEVEL_1p5) { auto &hv = out.hdr[(unsigned) pgno[i] << 16 | (unsigned) subno[i]]; for (int q = 0; q < 40; ++q) hv.push_back(pg.text[q].unicode); } if (level == VBI_WST_LEVEL_2p5) { auto &lv = out.links[(unsigned) pgno[i] << 16 | (unsigned) subno[i]]; for (int q = 0; q < 6; ++q) lv.push_back(pg.nav_link[q].pgno); } vbi_unref_page(&pg); }
+			if (vbi_fetch_vt_page(dec, &pg, pgno[i], subno[i], (vbi_wst_level) level, 25, TRUE)) { ser_page(o, pg); if (level == VBI_WST_LEVEL_1p5) { auto &hv = out.hdr[(unsigned) pgno[i] << 16 | (unsigned) subno[i]]; for (int q = 0; q < 40; ++q) hv.push_back(pg.text[q].unicode); auto &gv = out.grid[(unsigned) pgno[i] << 16 | (unsigned) subno[i]]; for (int y = 0; y < 25 && y < pg.rows; ++y) for (int q = 0; q < 40; ++q) gv.push_back(pg.text[y * pg.columns + q].unicode); } if (level == VBI_WST_LEVEL_2p5) { auto &lv = out.links[(unsigned) pgno[i] << 16 | (unsigned) subno[i]]; for (int q = 0; q < 6; ++q) lv.push_back(pg.nav_link[q].pgno); } vbi_unref_page(&pg); }
 			else o += "<fetch failed>";
 			o += "|L|";
 		}
@@ -634,6 +635,19 @@ int vf_run_case(Src &s, Report &r) {
 				}
 				run_tx(txv, nullptr, i, alt, cand);
 				if (same_pages(got, cand)) ok = true;
+			}
+			if (ok) {
+				// ... but only where the row had no earlier content to keep: "a text row received with a parity error never replaces a previously
+				// received good row". Earlier content = what the run without this packet shows in that row of the page.
+				Snap without_row; std::fill(drop.begin(), drop.end(), 0); drop[i] = 1; run_tx(txv, &drop, -1, nullptr, without_row);
+				const PageDef &pd = pages[(size_t) txv[i].pi]; unsigned pgno = pd.mag << 8 | pd.page; int y = txv[i].row;
+				for (auto &kv : without_row.grid) if ((kv.first >> 16) == pgno && y >= 1 && y <= 24 && kv.second.size() >= (size_t) (y + 1) * 40) {
+					bool blank = true; for (int q = 0; q < 40; ++q) { unsigned u = kv.second[(size_t) y * 40 + (size_t) q]; if (u != 0x20 && u != 0xEE20 && u != 0xEE00) blank = false; }
+					auto g = got.grid.find(kv.first);
+					bool changed = g != got.grid.end() && g->second.size() == kv.second.size() && !std::equal(g->second.begin() + y * 40, g->second.begin() + (y + 1) * 40, kv.second.begin() + y * 40);
+					if (!blank && changed) return r.fail("C03:parity-error-row-replaces-good-row", "parity error(s) in %s: row %d of page %x.%x had content from an earlier transmission (it shows in the run without this packet), the damaged row has replaced it", describe(i, fb).c_str(), y, kv.first >> 16, kv.first & 0xFFFF);
+				}
+				r.cls("faults:parity-text-row-position-wise-outcome");
 			}
 			if (!ok) {
 				std::fill(drop.begin(), drop.end(), 0); drop[i] = 1; run_tx(txv, &drop, -1, nullptr, cand);
